@@ -265,4 +265,55 @@ theorem red_resp (B : Backend σ) (s : Conc σ ρ) (a : Atomic σ ρ) (h : Red B
 theorem red_db (B : Backend σ) (s : Conc σ ρ) (a : Atomic σ ρ) (h : Red B s a) : s.db = a.db :=
   h.db
 
+
+/-- every prefix of the interleaved schedule is matched by a prefix of the reduced one (so "this
+    request had been answered before that one was invoked" means the same in both) -/
+theorem C03_reduction_prefix (B : Backend σ) (mode : TxnMode) (s : Conc σ ρ) (a : Atomic σ ρ)
+    (h : Red B s a) (sched : List Nat) :
+    ∃ sched', sched'.Sublist sched ∧ Red B (runSmall B mode s sched) (runAtomic B mode a sched') ∧
+      ∀ s1 s2, sched = s1 ++ s2 →
+        ∃ s1' s2', sched' = s1' ++ s2' ∧ Red B (runSmall B mode s s1) (runAtomic B mode a s1') := by
+  induction sched generalizing s a with
+  | nil =>
+    refine ⟨[], List.Sublist.slnil, h, ?_⟩
+    intro s1 s2 hs
+    have : s1 = [] := by cases s1 with | nil => rfl | cons x xs => simp at hs
+    subst this
+    exact ⟨[], [], rfl, h⟩
+  | cons t ts ih =>
+    cases hst : stepSmall B mode s t with
+    | none =>
+      obtain ⟨sched', hsub, hred, hpre⟩ := ih s a h
+      refine ⟨sched', hsub.cons t, by rw [runSmall, hst]; exact hred, ?_⟩
+      intro s1 s2 hs
+      cases s1 with
+      | nil => exact ⟨[], sched', rfl, h⟩
+      | cons x s1r =>
+        simp only [List.cons_append, List.cons.injEq] at hs
+        obtain ⟨rfl, hts⟩ := hs
+        obtain ⟨s1', s2', h1, h2⟩ := hpre s1r s2 hts
+        exact ⟨s1', s2', h1, by rw [runSmall, hst]; exact h2⟩
+    | some s' =>
+      rcases red_step B mode s a h t s' hst with h' | ⟨a', ha, h'⟩
+      · obtain ⟨sched', hsub, hred, hpre⟩ := ih s' a h'
+        refine ⟨sched', hsub.cons t, by rw [runSmall, hst]; exact hred, ?_⟩
+        intro s1 s2 hs
+        cases s1 with
+        | nil => exact ⟨[], sched', rfl, h⟩
+        | cons x s1r =>
+          simp only [List.cons_append, List.cons.injEq] at hs
+          obtain ⟨rfl, hts⟩ := hs
+          obtain ⟨s1', s2', h1, h2⟩ := hpre s1r s2 hts
+          exact ⟨s1', s2', h1, by rw [runSmall, hst]; exact h2⟩
+      · obtain ⟨sched', hsub, hred, hpre⟩ := ih s' a' h'
+        refine ⟨t :: sched', hsub.cons_cons t, by rw [runSmall, hst, runAtomic, ha]; exact hred, ?_⟩
+        intro s1 s2 hs
+        cases s1 with
+        | nil => exact ⟨[], t :: sched', rfl, h⟩
+        | cons x s1r =>
+          simp only [List.cons_append, List.cons.injEq] at hs
+          obtain ⟨rfl, hts⟩ := hs
+          obtain ⟨s1', s2', h1, h2⟩ := hpre s1r s2 hts
+          exact ⟨t :: s1', s2', by rw [h1]; rfl, by rw [runSmall, hst, runAtomic, ha]; exact h2⟩
+
 end Tcs
